@@ -59,8 +59,14 @@ Lemma res_map_plain (r : res value) :
   res_map fst (match r with Ok x => Ok (x, @None value) | Err e => Err e end) = r.
 Proof. now destruct r. Qed.
 
-Lemma run_async_agrees aug c v : res_map fst (run_async aug c v) = run_sync c v.
+(* the one call on which the variants differ: sum with a str start (the builtin sum refuses it,
+   the async loop concatenates) *)
+Definition agree_domain (c : call) : bool :=
+  match c with CSum _ (VStr _) => false | _ => true end.
+
+Lemma run_async_agrees aug c v : agree_domain c = true -> res_map fst (run_async aug c v) = run_sync c v.
 Proof.
+  intros Hd.
   destruct c as [n fill|n fill|cs a|r cs a|cs b r|a dflt cs|cs a|cs a|a start|d a|m|neg t a| | | | | ];
     cbn [run_async]; try apply res_map_plain.
   - rewrite res_map_plain. cbn [run_sync]. unfold with_elems. destruct (elems v); [|reflexivity].
@@ -70,7 +76,7 @@ Proof.
   - rewrite res_map_plain. cbn [run_sync]. unfold with_elems. destruct (elems v); [|reflexivity].
     now rewrite auto_to_list_id.
   - cbn [run_sync]. unfold with_elems. destruct (elems v) as [l|e]; [|reflexivity].
-    unfold f_sum_async, f_sum. destruct start; try reflexivity;
+    unfold f_sum_async, f_sum. destruct start; try discriminate Hd;
       destruct (sum_go (sum_getter a) _ l); reflexivity.
   - rewrite res_map_plain. cbn [run_sync]. unfold with_elems. destruct (elems v); [|reflexivity].
     now rewrite auto_to_list_id.
@@ -84,7 +90,5 @@ Proof.
   intros H E. unfold f_sum_async in E.
   assert (Hc : aug && is_list start = false).
   { destruct H as [-> | ->]; [reflexivity|apply andb_false_r]. }
-  rewrite Hc in E.
-  destruct start; try discriminate E; destruct (sum_go _ _ xs); try discriminate E;
-    now injection E as _ <-.
+  rewrite Hc in E. destruct (sum_go _ _ xs); try discriminate E. now injection E as _ <-.
 Qed.
